@@ -1496,6 +1496,15 @@ def internal_error_sites(scans, ietab):
                 continue        # delegating constructor inside InternalError itself
             else:
                 ty = None
+                # `for (const InternalError::Type t : {InternalError::A, InternalError::B}) ... InternalError(tok, msg, t)`
+                if re.match(r"^\w+$", last):
+                    body = sc["code"][c["fn"].body_start:c["off"]]
+                    loops = list(re.finditer(r"for\s*\(\s*(?:const\s+)?InternalError::Type\s+%s\s*:\s*\{([^{}]*)\}\s*\)" % re.escape(last), body))
+                    if loops:
+                        items = [re.sub(r"\s+", "", x) for x in loops[-1].group(1).split(",") if x.strip()]
+                        ms = [re.match(r"^InternalError::(?:Type::)?(\w+)$", x) for x in items]
+                        if items and all(ms):
+                            ty = [m_.group(1) for m_ in ms]
             if ty is None or any(t not in ietab["table"] for t in ty):
                 probs.append("%s: InternalError type argument %r is not a literal enumerator: %s" % (where, args[-1][:40], c["text"][:100]))
                 continue
